@@ -47,7 +47,7 @@ const char *vh_counter_name[VC_COUNT] = {
     [VC_RB_COAST_MANY] = "rollbacks_coast_many", [VC_RB_TO_ZERO] = "rollbacks_to_history_start", [VC_CAS_RETRY] = "queue_cas_retries",
     [VC_SWAP_NONEMPTY] = "queue_swaps_nonempty", [VC_FP_DELAYS] = "failpoint_delays", [VC_EXTRACT] = "extractions",
     [VC_MSG_ALLOC] = "message_allocs", [VC_MSG_FREE] = "message_frees", [VC_QUEUE_LEFT] = "messages_left_in_queues_at_shutdown",
-    [VC_VOTES] = "termination_votes", [VC_GVT_INITIATED] = "gvt_rounds_initiated", [VC_INSERT_BETWEEN_PEEKS] = "reductions_with_in_hand_window_checked",
+    [VC_VOTES] = "termination_votes", [VC_TERM_CHECKS] = "vote_rule_states_checked", [VC_GVT_INITIATED] = "gvt_rounds_initiated", [VC_INSERT_BETWEEN_PEEKS] = "reductions_with_in_hand_window_checked",
     [VC_FINI_COMMITTED] = "committed_at_shutdown_checked", [VC_MUTED_SENDS] = "sends_muted_in_silent_execution",
     [VC_ARENA_AFTER_CKPT] = "unused2", [VC_DEPTH_MAX] = "max_rollback_depth", [VC_COAST_MAX] = "max_coast_forward",
 };
@@ -482,6 +482,30 @@ void rs_verif_hook(unsigned point, const void *p, uint64_t a, uint64_t b)
 			baton_yield(2);
 			failpoint(vh_cfg.fp_level >= 3 ? 40 : vh_cfg.fp_level == 2 ? 300 : vh_cfg.fp_level == 1 ? 2000 : 0, 7);
 			return;
+		case VH_TERM_CHECK: {
+			/* Predictive form of the vote oracle. The thread votes at the first GVT g with (no LP left) and (thread maximum < g); that is
+			 * sound for every value g can take only if the maximum covers the terminating event of every LP counted as done and the count of
+			 * LPs left is not below the number of LPs whose termination is currently undone. A state that breaks this is (once the LPs left
+			 * are done at earlier timestamps) one GVT value in the uncovered interval away from a vote on a state that can still be undone;
+			 * which GVT value comes next is up to the schedule. The unchanged code keeps the maximum monotone, so it is never in such a state. */
+			if(!vh_cfg.monitors || global_config.serial)
+				return;
+			double mx;
+			memcpy(&mx, &a, 8);
+			if(mx == SIMTIME_MAX)
+				return; /* already voted */
+			uint64_t undone = 0;
+			for(uint64_t i = lid_thread_first; i < lid_thread_end; ++i) {
+				double tt = lps[i].termination_t;
+				undone += tt < 0;
+				if(tt >= 0 && tt != SIMTIME_MAX && tt > mx)
+					vh_violation("C07", "vote-threshold-below-a-terminating-event", "thread %u votes at the first GVT above %a once no LP is left (%llu left now), but LP %llu, counted as done, is done only since its event at %a: a GVT in between ends the run on a state that can still be undone", rid, mx, (unsigned long long)b, (unsigned long long)i, tt);
+			}
+			if(b < undone)
+				vh_violation("C07", "lps-left-undercounted", "thread %u counts %llu LP(s) left while %llu LP(s) have their termination undone", rid, (unsigned long long)b, (unsigned long long)undone);
+			CNT(VC_TERM_CHECKS);
+			return;
+		}
 		case VH_TERM_VOTE: {
 			CNT(VC_VOTES);
 			memcpy(&t->vote_gvt, &a, 8);
